@@ -235,6 +235,18 @@ func verifIsNil(v interface{}) bool {
 	return false
 }
 
+// verifSame: do two operands hold the same value — equal renderings, and for pointers the same object
+func verifSame(x, y interface{}) bool {
+	if fmt.Sprint(x) != fmt.Sprint(y) {
+		return false
+	}
+	if rx := reflect.ValueOf(x); rx.IsValid() && rx.Kind() == reflect.Ptr {
+		ry := reflect.ValueOf(y)
+		return ry.IsValid() && ry.Kind() == reflect.Ptr && rx.Pointer() == ry.Pointer()
+	}
+	return true
+}
+
 func run(f func(in) interface{}, i in) (out string) {
 	logbuf = logbuf[:0]
 	cnt = 0
@@ -308,7 +320,7 @@ const unpack = "a, b, c, u, v, p, q, s, t, k, l, xs, bs, tm := i.A, i.B, i.C, i.
 	"\t_, _, _, _, _, _, _, _, _, _, _, _, _, _ = a, b, c, u, v, p, q, s, t, k, l, xs, bs, tm\n" +
 	"\tms, mi, mm, ma := myStr(s), myInts(xs), myMap{0: s, 1: t}, myArr{a, b, c}\n\tpa, w := &ma, &wr{}\n\tgxs, gf, gn = nil, hi, 0\n" +
 	"\tmf, mg, mc, mc2 := myF(p), myF(q), myC(complex(p, q)), myC(complex(q, p))\n\tfa := [2]myF{mf, mg}\n\tw.g = mg\n" +
-	"\tvv, it := val{a}, &iter{}\n\tvar pe *myE\n\tif k {\n\t\tpe = &myE{}\n\t}\n\t_ = pe\n" +
+	"\tvv, it := val{a}, &iter{}\n\tvar pe *myE\n\tif k {\n\t\tpe = &myE{}\n\t}\n\t_ = pe\n\tcx := complex(p, q)\n\t_ = cx\n" +
 	"\t_, _, _, _, _, _, _, _, _, _, _, _, _ = ms, mi, mm, ma, pa, w, mf, mg, mc, mc2, fa, vv, it\n"
 
 func caseFunc(kind, body string) string {
@@ -454,7 +466,7 @@ func Grid(r *rand.Rand, text string, max int) []Input {
 	if used["vv"] || used["val"] {
 		used["a"] = true
 	}
-	if used["mf"] || used["mg"] || used["mc"] || used["mc2"] || used["fa"] || used["w"] {
+	if used["mf"] || used["mg"] || used["mc"] || used["mc2"] || used["fa"] || used["w"] || used["cx"] {
 		used["p"], used["q"] = true, true
 	}
 	if used["fmf"] {
